@@ -3,7 +3,8 @@
 From Coq Require Import List ZArith NArith Bool Arith String.
 From Scalibr Require Import Sched.Compute Sched.ComputeProofs Sched.Cache Sched.CacheProofs
                             Sched.RaceModel Sched.Generated_WalkAccesses Sched.RaceProofs
-                            Sched.ClientRace Sched.Generated_ClientAccesses Sched.Generated_ClientExempt Sched.ClientRaceProofs.
+                            Sched.ClientRace Sched.Generated_ClientAccesses Sched.Generated_ClientExempt Sched.Generated_ResolutionMutations
+                            Sched.ClientRaceProofs.
 Import ListNotations.
 
 (* ================================================================== (a) patch computation *)
@@ -133,6 +134,15 @@ Theorem no_cached_slice_mutated_in_place :
 Proof. exact no_cached_slice_mutated_in_place_lemma. Qed.
 Print Assumptions no_cached_slice_mutated_in_place.
 
+(* guidedremediation/internal/resolution: graph / subgraph values are shared by all concurrent patch attempts; no
+   function mutates in place (slices.DeleteFunc / Sort / Reverse / Compact / Insert, index assignment, append
+   not stored back) a slice or map it reached from its receiver or a parameter without copying it first *)
+Theorem no_shared_subgraph_mutated_in_place :
+  shared_mutations resolution_mutations = [] /\
+  existsb (fun m => String.eqb (m_taint m) "fresh" && negb (String.eqb (m_op m) "index-assign")) resolution_mutations = true.
+Proof. exact no_shared_subgraph_mutated_in_place_lemma. Qed.
+Print Assumptions no_shared_subgraph_mutated_in_place.
+
 (* ================================================================== non-vacuity *)
 (* a strategy with a spawned attempt: two delivery orders, same result; hypotheses hold on its outputs *)
 Example compute_example :
@@ -190,3 +200,8 @@ Proof. exact append_shape_is_detected_lemma. Qed.
 Example cached_mutation_shape_is_detected :
   map m_expr (cached_mutations seeded_escapes seeded_mutations) = ["got.List"]%string.
 Proof. exact cached_mutation_shape_is_detected_lemma. Qed.
+
+Example shared_mutation_shape_is_detected :
+  List.length (shared_mutations (mkmut "F" "slices.DeleteFunc" "old.Children" "other" "Children" "shared" "synthetic" 0
+                                 :: resolution_mutations)) = 1%nat.
+Proof. exact shared_mutation_shape_is_detected_lemma. Qed.
